@@ -174,13 +174,16 @@ def compare(n1, n2, path=''):
 
 def roundtrip(text):
     from musicxml.parser.parser import parse_musicxml
-    fd, p = tempfile.mkstemp(suffix='.xml', prefix='mxv_c08_')
+    # every document of a worker process is written to the SAME path (as an application saving and re-opening one file
+    # does): what is read back must be what was written last
+    p = os.path.join(tempfile.gettempdir(), 'mxv_c08_%d.xml' % os.getpid())
     try:
-        with os.fdopen(fd, 'w', encoding='utf-8') as f:
+        with open(p, 'w', encoding='utf-8') as f:
             f.write('<?xml version="1.0" encoding="UTF-8" standalone="no"?>\n' + text)
         r = call(parse_musicxml, p)
     finally:
-        os.unlink(p)
+        if os.path.exists(p):
+            os.unlink(p)
     return r
 
 
